@@ -208,6 +208,18 @@ def run_case(ctx, kind, rng, idx):
         try:
             m = MSM(lag_time=lag, method=builders.normalize,
                     max_n_states=n_states)
+            if rng.random() < 0.5:
+                # the estimator has been fitted before, on other data with
+                # another number of states: nothing of that may carry over
+                top = int(rng.integers(1, observed + 4))
+                other = [rng.integers(0, top + 1, size=int(
+                    rng.integers(lag + 1, lag + 30))) for _ in range(2)]
+                other[0][0] = top
+                try:
+                    m.fit(R(other))
+                    ctx.count('msm_prefitted')
+                except Exception:  # noqa - only the second fit is judged
+                    pass
             m.fit(R([t.copy() for t in trajs]))
             ctx.count('matrices_compared')
             tc = m.tcounts_
